@@ -284,7 +284,8 @@ ADDENDA = {
     "C09": " Added: R9.6 compute_rdp culls only under farthest<=eps where farthest is the max over all interior vertices of the Euclidean point-to-SEGMENT distance to Line(first,last); R9.7 the Visvalingam loops stop exactly at area > eps.",
     "C10": " Added: R10.4 roles of the chains joined by finish_with in the monotone builder (help[0] upper, help[1] lower; def-chain provenance); R10.5 helper_chain updated on every way through the chain-continuing arms (CFG must-pass); R10.6 stitch parent test is Polygon.contains(whole ring).",
     "C12": " Added: a computed SinglePoint must be on a path that found self.intersects(p) false.",
-    "C13": " Added: the composition laws are checked on every path of compose under its own path condition; compose_many is the left fold of compose.",
+    "C13": " Added: the composition laws are checked on every path of compose under its own path condition; compose_many is the left fold of compose; R13.7 Rotate/Scale/Skew/Translate use the documented origin (point / centroid / bounding-rect centre) and every _mut twin makes the same call.",
+    "C19": " Added: R19.3 lines_iter of every type is the component-by-component window traversal (helper iterators and to_lines tables included); R19.4 map_coords rebuilds the same shape from f applied in traversal order, try_map_coords agrees with it on its Ok path, simple in-place variants store f(part).",
     "C14": " Added: R14.6 the ring simplicity helper is the complete pairwise segment test (decision alphabet, true-condition, false only after exhaustion).",
     "C15": " Added: R15.4 Densifiable for Polygon / Multi* / Rect / Triangle densifies every part on every path.",
     "C20": " Added: R20.5 no call mutates state a later call reads (PreparedGeometry hands out fresh edges on every path; inventory of interior-mutable fields).",
